@@ -313,6 +313,8 @@ pub(crate) mod verif_request {
     c12_ver!(c12_srv32_k1_fixed, 1, 32, 104, true, false, 8);
     //@ harness c12_srv32_k2 tier=thorough shape="VER 2 words + SRV 32 symbolic bytes" must_cover=COVER:answered,COVER:dropped
     c12_ver!(c12_srv32_k2, 2, 32, 108, true, true, 8);
+    //@ harness c12_srv4_k1 tier=quick shape="VER 1 word + SRV of 4 symbolic bytes (wrong length; may equal a prefix of the server's value)"
+    c12_ver!(c12_srv4_k1, 1, 4, 76, true, true, 8);
     //@ harness c12_srv28_k1 tier=quick shape="VER 1 word + SRV of 28 bytes (wrong length)"
     c12_ver!(c12_srv28_k1, 1, 28, 100, true, true, 8);
     //@ harness c12_srv36_k1 tier=thorough shape="VER 1 word + SRV of 36 bytes (wrong length)"
